@@ -111,7 +111,7 @@ func (c *Ctx) checkNoErrorAfterStore(r *Result, rule string, fn *ssa.Function, m
 	n := 0
 	for _, ret := range errs {
 		// classify the error: wrapping an I/O primitive's failure is exempt when ioExempt
-		srcs := errorSources(ret.Results[idx])
+		srcs := errorSources(retOperand(ret, idx))
 		logical := false
 		var srcNames []string
 		for _, s := range srcs {
